@@ -9,6 +9,9 @@ CLAIMED = {
  "C02": ("differential property-based testing against an independent reference interpreter of Cedar, over 5 delivery paths (expression text, when, unless, JSON policy, scope)", "5.2",
          "Grammar-complete untyped expressions (ill-typed operands on purpose, i64 boundaries, extension strings) are evaluated by a reference interpreter written from the language docs and by cedar through every delivery path; values compared exactly, errors by class.",
          "trusted: refmodel::eval and refmodel::ext; bridge from cedar values (canonical extension representation) to reference values"),
+ "C03": ("property-based testing of validator soundness: type-directed policies with planted guard mistakes, accepted ones evaluated on conformant worlds; lock-step check of every evaluated subexpression against its static type", "5.3",
+         "Every policy strict validation accepts is run on fresh conformant worlds: only missing-entity/overflow/extension errors may occur and each evaluated node of the typechecker's typed AST must inhabit its static type; trap-free policies must be accepted (non-vacuity) and strict => permissive.",
+         "trusted: World-S conformance (re-validated by the library), inhabits_cedar, Policy-T's conservative fragment (calibrated)"),
  "C04": ("model-based stateful property testing against a parent-reachability reference model", "5.4",
          "Generated operation histories are replayed against an independent map/DFS model and all 64 uid pairs are queried after every step through three observers; shrinking yields a minimal history. Bounded to 7 uids and <=20 operations.",
          "trusted: the 40-line reference model (direct-parent map, DFS), the documented duplicate rule; cedar's parser/authorizer for the `in` observer"),
@@ -21,12 +24,21 @@ CLAIMED = {
  "C07": ("property-based testing against exact reference arithmetic (own parsers, i128, own civil-date code) over valid / boundary / near-miss constructor strings and boundary-biased operands", "5.7",
          "Constructor acceptance and values, every operation, and equality-by-value are compared with an independent exact implementation; values are additionally observed through cedar's own observers so a constructor bug cannot hide behind a printer bug.",
          "trusted: refmodel::ext (unit-tested on documented examples)"),
+ "C09": ("differential / round-trip property testing of the two schema syntaxes: one reference schema emitted in both, each translated to the other, compared by schema equality and by validation verdicts", "5.9",
+         "Generated schemas (namespaces, common types, enums, tags, groups, quoted identifiers) are written in both syntaxes with random layout; both must load to equal schemas and each translation must load to a schema equal to its source, with identical policy/entity/request validation verdicts.",
+         "trusted: harness schema emitters (cross-checked against each other); translation errors are counted, not judged"),
  "C10": ("round-trip and differential property testing of entity/context JSON (to_json -> from_json with/without schema; implicit vs explicit escapes per position; reserved keys)", "5.10",
          "Conformant stores over all value shapes are serialised and re-parsed with and without the schema and compared with deep_eq and per uid; the same data in randomly mixed implicit/explicit forms must parse to the same store; records with reserved-looking keys must be refused or round-trip.",
          "trusted: harness JSON writers; Entities::deep_eq (cross-checked per uid)"),
  "C11": ("single-fault mutation testing: conformant-by-construction data must be accepted, data with exactly one injected violation (20 kinds, any depth) must be rejected, through every schema-taking entry point", "5.11",
          "Generated conformant stores/requests are accepted by all 11 entry points; each of 20 fault kinds is injected alone and every entry point documented to cover the faulted component must reject. Two listed findings (Context::from_json_value leaf validation) are reported as KNOWN-FINDING.",
          "trusted: World-S conformance by construction, fault mutators, fault->entry point table from the API docs"),
+ "C16": ("property-based testing: level-validated policy sets authorized over the full store vs the harness-computed level-n slice (metamorphic equality of responses); monotonicity in n", "5.16",
+         "Chain-biased schemas and strictly valid policies with deep access paths; whenever validate_with_level(n) accepts, the smallest store the guarantee speaks about (own RFC-76 slicer) must give the same decision, reasons and error ids.",
+         "trusted: harness level slicer, World-S conformance; n <= 4"),
+ "C17": ("property-based testing: manifest-sliced store vs full store must give identical responses", "5.17",
+         "compute_entity_manifest + slice_entities on generated valid policy sets and conformant stores; responses compared (decision, reasons, error ids). Manifest refusals for documented unsupported features are counted skips.",
+         "trusted: World-S conformance; tags are outside the manifest's supported fragment"),
  "C08": ("model-based stateful property testing of PolicySet edit histories with a substitution oracle for links", "5.8",
          "Operation histories (incl. merge with renaming) run against an id-map model with the documented error rules; all observers are compared after every step and authorization is compared with the textually substituted static set.",
          "trusted: id-map model; 5 ids, 8 texts, <=30 operations"),
